@@ -11,10 +11,14 @@ for d in sys.argv[1:]:
             print(diff, "DOES NOT APPLY", flush=True); continue
         alarms = []
         try:
-            for p in props:
+            from concurrent.futures import ThreadPoolExecutor
+            def one(p):
                 r = subprocess.run(["./check", p, "--tier", "quick"], cwd=V, capture_output=True, text=True, timeout=3600)
                 if r.returncode != 0:
-                    alarms.append(p + ": " + " | ".join(l[:200] for l in r.stdout.split("\n") if l.startswith(("VIOLATION", "CHECK-ERROR")))[:500] + (" <<" + (r.stdout + r.stderr)[-600:].replace("\n", " / ") + ">>" if "VIOLATION" not in r.stdout else ""))
+                    return (p + ": " + " | ".join(l[:200] for l in r.stdout.split("\n") if l.startswith(("VIOLATION", "CHECK-ERROR")))[:500]
+                            + (" <<" + (r.stdout + r.stderr)[-600:].replace("\n", " / ") + ">>" if "VIOLATION" not in r.stdout else ""))
+            with ThreadPoolExecutor(int(os.environ.get("SWEEP_PAR", "4"))) as ex:
+                alarms = [a for a in ex.map(one, props) if a]
         finally:
             subprocess.run("git -C %s checkout -- . && git -C %s clean -fdq" % (REPO, REPO), shell=True)
         print(diff, "QUIET" if not alarms else "ALARMS: " + " ;; ".join(alarms), flush=True)
